@@ -735,6 +735,32 @@ mut('m60_storyreplace_zero_removes_first', 'C05',
             )""", None))
 
 
+# ---- scale: only wrong once a position has two digits
+mut('m61_eastorydelete_indexes_sorted_as_strings', 'C01',
+    (MT, """        for source_story in self.stories:
+            story, story_index = find_child_by_id(parent=ro.base_tag, child_tag='story', id=source_story.id)
+            if story is None:
+                msg = f"{self.__class__.__name__} error in {self.message_id} - story not found"
+                logger.warning(msg)
+                warnings.warn(msg, StoryNotFoundWarning)
+            else:
+                remove_node(parent=ro.base_tag, node=story)
+        return ro""",
+     """        found = set()
+        for source_story in self.stories:
+            story, story_index = find_child_by_id(parent=ro.base_tag, child_tag='story', id=source_story.id)
+            if story is None:
+                msg = f"{self.__class__.__name__} error in {self.message_id} - story not found"
+                logger.warning(msg)
+                warnings.warn(msg, StoryNotFoundWarning)
+            else:
+                found.add(story_index)
+        # delete back to front so the remaining positions stay valid
+        for story_index in sorted(found, key=str, reverse=True):
+            del ro.base_tag[story_index]
+        return ro""", None))
+
+
 def main():
     os.makedirs(OUT, exist_ok=True)
     for fn in os.listdir(OUT):
